@@ -416,6 +416,9 @@ func (x *Exec) mapRead(st *State, m *Term, k Val, mapKey string, elem types.Type
 	val := x.c.Select(x.heapGet(st, "MV."+mapKey, SArr(SInt, SArr(ks, vs))), m)
 	ok := x.c.And(x.c.Neq(m, x.c.Int(0)), x.c.Select(dom, k.T))
 	raw := x.c.Select(val, k.T)
+	if !isObjType(elem) {
+		x.rangeAxiom(st, "MV."+mapKey, SArr(SInt, SArr(ks, vs)), elem, true)
+	}
 	if isObjType(elem) {
 		// value objects stored by reference to an immutable copy; absent -> zero object (fresh, zeroed)
 		x.noteRead(st, raw, types.NewPointer(elem))
